@@ -31,25 +31,57 @@ F19 = "F19:server-started-mid-step-serialises-live-state"
 
 
 # ============================================================================ simulations
+VAR_OK = {"ias15": ["1st", "2nd", "megno"], "whfast": ["1st", "megno"], "bs": ["1st", "2nd"], "leapfrog": ["1st", "2nd"],
+          "eos": ["1st", "2nd", "megno"]}          # integrators that accept variational particles (others raise / exit)
+TESTP_OK = ("ias15", "whfast", "saba", "eos", "mercurius", "trace", "bs", "leapfrog")
+
+
 def make_sim(rebound, sp):
-    """deterministic simulation from a spec dict (same bits in every process)"""
+    """deterministic simulation from a spec dict (same bits in every process).
+    options: var = 1st | 2nd | megno (variational particles with non-zero variations), testp = k (last k particles are test
+    particles, N_active = N-k, testparticle_type tpt), enc = 1 (two massive planets on close orbits: MERCURIUS/TRACE switch into
+    their encounter branch and allocate/fill its arrays), safe = 0 (unsynchronised), eft (exact_finish_time of every call)"""
     rng = SplitMix(sp["seed"])
     sim = rebound.Simulation()
     sim.rand_seed = sp["seed"] & 0x7FFFFFFF
     integ, N = sp["integ"], sp["N"]
+    testp = sp.get("testp", 0)
     if integ == "sei":
         sim.ri_sei.OMEGA = 1.0
         for i in range(N):
             sim.add(m=1e-9, x=rng.uniform(-1, 1), y=rng.uniform(-1, 1), z=rng.uniform(-0.1, 0.1),
                     vx=rng.uniform(-0.1, 0.1), vy=rng.uniform(-0.1, 0.1), vz=rng.uniform(-0.01, 0.01))
+    elif sp.get("enc"):
+        sim.add(m=1.0)
+        sim.add(m=2e-3, a=1.0, e=0.02, f=rng.uniform(0, 6.28))
+        sim.add(m=2e-3, a=1.12, e=0.02, f=rng.uniform(0, 6.28))
+        for i in range(3, N):
+            sim.add(m=(0.0 if i >= N - testp else 1e-5), a=1.03 + 0.9 * (i - 2) / N + rng.uniform(0, 0.05), e=rng.uniform(0, 0.03),
+                    inc=rng.uniform(0, 0.02), f=rng.uniform(0, 6.28))
+        sim.move_to_com()
     else:
         sim.add(m=1.0)
         mp = sp.get("mp", 1e-5)
         for i in range(1, N):
-            sim.add(m=mp * rng.uniform(0.5, 2.0), a=rng.uniform(1.0, 1.0 + 0.35 * N ** 0.5) + 0.3 * i / N,
+            m = mp * rng.uniform(0.5, 2.0)
+            if i >= N - testp:
+                m = 0.0 if (sp.get("tpt", 0) == 0 or sp.get("var") == "2nd") else 1e-9
+            sim.add(m=m, a=rng.uniform(1.0, 1.0 + 0.35 * N ** 0.5) + 0.3 * i / N,
                     e=rng.uniform(0, 0.08), inc=rng.uniform(0, 0.05), Omega=rng.uniform(0, 6.28),
                     omega=rng.uniform(0, 6.28), f=rng.uniform(0, 6.28))
         sim.move_to_com()
+    if sp.get("rngp") and integ != "janus":
+        # the per-simulation random generator (tools.c:54-95, rand_r on r->rand_seed) feeds one more massless particle
+        clib = rebound.clibrebound
+        clib.reb_random_uniform.restype = ctypes.c_double
+        clib.reb_random_normal.restype = ctypes.c_double
+        u = [clib.reb_random_uniform(ctypes.byref(sim), ctypes.c_double(0.0), ctypes.c_double(1.0)) for _ in range(6)]
+        g = clib.reb_random_normal(ctypes.byref(sim), ctypes.c_double(1.0))
+        sim.add(m=0.0, x=5.0 + u[0], y=u[1] - 0.5, z=0.05 * g, vx=0.1 * (u[2] - 0.5), vy=0.35 + 0.05 * u[3], vz=0.01 * u[4])
+    if testp:
+        sim.N_active = N - testp
+        # testparticle_type=1 is not implemented for second order variational equations (the library raises)
+        sim.testparticle_type = 0 if sp.get("var") == "2nd" else sp.get("tpt", 0)
     sim.integrator = integ
     sim.dt = sp["dt"]
     if integ == "whfast":
@@ -65,7 +97,26 @@ def make_sim(rebound, sp):
     if integ == "janus":
         sim.ri_janus.scale_pos = 1e-16
         sim.ri_janus.scale_vel = 1e-16
+    var = sp.get("var")
+    if var == "1st":
+        v = sim.add_variation()
+        v.vary(1, "a")
+    elif var == "2nd":
+        v1 = sim.add_variation()
+        v1.vary(1, "a")
+        w1 = sim.add_variation()
+        w1.vary(2, "e")
+        v2 = sim.add_variation(order=2, first_order=v1)
+        v2.vary(1, "a", "a")
+        v3 = sim.add_variation(order=2, first_order=v1, first_order_2=w1)
+        v3.vary(1, "a")
+    elif var == "megno":
+        sim.init_megno(seed=sp["seed"] & 0xFFFF)
     return sim
+
+
+def integ_to(sim, sp, tmax):
+    sim.integrate(tmax, exact_finish_time=sp.get("eft", 1))
 
 
 def sim_bytes(rebound, sim):
@@ -109,6 +160,11 @@ class Fmt:
             if fd.dtype in (8, 15) or (fd.dtype in (9, 10) and fd.element_size == psize):
                 self.particle_fields.add(fd.type)
         self.names[87] = "functionpointers"
+        # var_config: array of struct reb_variational_configuration, whose first member is the owning simulation's address
+        from rebound.variation import Variation
+        self.var_size = ctypes.sizeof(Variation)
+        self.var_ptr = (Variation._sim.offset, Variation._sim.offset + Variation._sim.size)
+        self.var_off = {n: getattr(Variation, n).offset for n, _ in Variation._fields_}
         self.psize = psize
         P = rebound.Particle
         self.ptr_ranges = [(getattr(P, n).offset, getattr(P, n).offset + getattr(P, n).size) for n in ("c", "ap", "_sim")]
@@ -153,6 +209,19 @@ class Fmt:
                         # whatever malloc returned
                         ba[k + 48:k + 72] = bytes(24)
                         ba[k + 80:k + self.psize] = bytes(self.psize - 80)
+                pay = bytes(ba)
+            if nm == "var_config" and len(pay) % self.var_size == 0:
+                ba = bytearray(pay)
+                for k in range(0, len(ba), self.var_size):
+                    ba[k + self.var_ptr[0]:k + self.var_ptr[1]] = bytes(self.var_ptr[1] - self.var_ptr[0])
+                    order = struct.unpack_from("<i", ba, k + self.var_off["order"])[0]
+                    if order == 1:
+                        # index_1st_order_a/b are only assigned for second-order configurations (rebound.c add_variation):
+                        # for first order they hold whatever realloc returned
+                        a0 = self.var_off["index_1st_order_a"]
+                        ba[k + a0:k + a0 + 8] = bytes(8)
+                    pe = self.var_off["index_1st_order_b"] + 4          # struct padding before the double
+                    ba[k + pe:k + self.var_off["_lrescale"]] = bytes(self.var_off["_lrescale"] - pe)
                 pay = bytes(ba)
             if nm in d:
                 nm = nm + "#dup"
@@ -297,7 +366,7 @@ def worker(argv):
             progress("integrate call", k, "to", tmax)
             if shim and use_server:
                 shim.c19_mark(0)
-            sim.integrate(tmax)
+            integ_to(sim, sp, tmax)
             if shim and use_server:
                 shim.c19_mark(1)
         integ_done.set()
@@ -554,7 +623,7 @@ def reference_run(rebound, fmt, sp, with_heartbeat):
     ends = []
     for k, tmax in enumerate(sp["tmax"]):
         call[0] = k
-        sim.integrate(tmax)
+        integ_to(sim, sp, tmax)
         if with_heartbeat:
             table.setdefault(int(sim.steps_done), []).append(("E", fmt.canon(sim_bytes(rebound, sim)), k, sim.t))
         ends.append(int(sim.steps_done))
@@ -565,14 +634,14 @@ class Runaway(Exception):
     """a continuation that takes far longer than the whole reference run (e.g. a served dt of 1e-17)"""
 
 
-def guarded_integrate(s, tmax, limit_s):
+def guarded_integrate(s, tmax, limit_s, eft=1):
     """sim.integrate(tmax) that cannot hang: run in a thread; after limit_s the loop is told to leave at its next
     reb_check_exit (status >= 0) and Runaway is raised"""
     err = []
 
     def go():
         try:
-            s.integrate(tmax)
+            s.integrate(tmax, exact_finish_time=eft)
         except BaseException as e:
             err.append(e)
     th = threading.Thread(target=go)
@@ -601,7 +670,7 @@ def continue_to_end(rebound, fmt, b, sp, tmpdir, restore_dt=None, limit_s=30.0):
         # shortened step can be one ulp off tmax
         reached = abs(tmax - s.t) < 1e-12 * abs(tmax)
         if (tmax - s.t) * sign > 0 and not reached:
-            guarded_integrate(s, tmax, max(0.5, t_end - time.time()))
+            guarded_integrate(s, tmax, max(0.5, t_end - time.time()), sp.get("eft", 1))
             if restore_dt is not None and first:
                 s.dt = restore_dt
             first = False
@@ -798,7 +867,7 @@ def scenarios(c):
         return out
     integs = list(INTEGS)
     rng.shuffle(integs)
-    nmain = len(integs)
+    nmain = len(integs) if c.thorough else 7
     # always whfast (default) first: the reference scenario
     integs.remove("whfast")
     integs = ["whfast"] + integs
@@ -813,6 +882,32 @@ def scenarios(c):
     sp = dict(integ="whfast", N=1200 if not c.thorough else 2500, dt=0.01, seed=rng.randint(1, 10 ** 6), safe=0, mp=1e-9,
               tmax=[0.01 * (3 * (k + 1) + 0.5) for k in range(10)])
     S.append(("unsynchronised", sp, dict(max_bodies=16, client_sleep_ms=1.0, delay_prob=0, delay_max_us=0)))
+    # variational particles (1st / 2nd order / MEGNO, non-zero variations), test particles, MERCURIUS/TRACE inside an encounter,
+    # exact_finish_time=0: the lazily allocated / N_var-dependent state of every integrator is live while requests are served
+    vtab = {"ias15": (20, 0.02, 5.0), "whfast": (60, 0.03, 3.0), "bs": (12, 0.05, 25.0), "leapfrog": (60, 0.01, 1.2), "eos": (50, 0.02, 2.4)}
+    vlist = [(i, v) for i in VAR_OK for v in VAR_OK[i]]
+    rng.shuffle(vlist)
+    vsel = [x for x in vlist if x[0] == "ias15"] + [x for x in vlist if x[0] != "ias15"]     # IAS15: all three kinds, always
+    for integ, var in (vsel if c.thorough else vsel[:5]):
+        N, dt, span = vtab[integ]
+        tms, t = [], 0.0
+        for k in range(rng.randint(2, 4)):
+            t += dt * (int(span / dt * rng.uniform(0.6, 1.4)) + rng.uniform(0.15, 0.85))
+            tms.append(t)
+        sp = dict(integ=integ, N=N, dt=dt, seed=rng.randint(1, 10 ** 6), tmax=tms, var=var, eft=rng.choice([0, 1]))
+        if rng.chance(0.4):
+            sp["testp"], sp["tpt"] = rng.randint(1, 3), rng.choice([0, 1])
+        S.append(("variational", sp, dict(max_bodies=14, client_sleep_ms=5.0, delay_prob=30, delay_max_us=1200)))
+    for integ in (["mercurius", "trace"] if c.thorough else [rng.choice(["mercurius", "trace"])]):
+        sp = dict(integ=integ, N=7, dt=0.03, seed=rng.randint(1, 10 ** 6), enc=1, testp=2, tpt=0,
+                  tmax=[0.03 * (900 * (k + 1) + 0.4 * (k + 1)) for k in range(3)], eft=1)
+        S.append(("encounter", sp, dict(max_bodies=14, client_sleep_ms=5.0, delay_prob=30, delay_max_us=1200)))
+    tp = [i for i in TESTP_OK if i not in ("mercurius", "trace")]
+    rng.shuffle(tp)
+    for integ in (tp if c.thorough else tp[:2]):
+        sp = dict(integ=integ, N=sizes[integ] // 2 + 4, dt=dts[integ], seed=rng.randint(1, 10 ** 6), tmax=tm(integ, rng.randint(2, 3)),
+                  testp=rng.randint(2, 4), tpt=rng.choice([0, 1]), eft=rng.choice([0, 1]), safe=rng.choice([1, 0]) if integ == "whfast" else 1)
+        S.append(("test-particles", sp, dict(max_bodies=12, client_sleep_ms=5.0, delay_prob=30, delay_max_us=1200)))
     # the server is started AFTER integrate() has been entered: (a) while the simulation idles PAUSED inside reb_check_exit and
     # is then resumed with the space key, (b) from another thread at a random phase of the running loop
     late = list(INTEGS)
@@ -982,34 +1077,46 @@ def par_specs(c, k, same=None):
                   tmax=[dt * (n1 + 0.3), dt * (n1 + n2 + 0.7)], safe=rng.choice([1, 1, 0]))
         if integ == "whfast" and rng.chance(0.4):
             sp["corrector"] = rng.choice([3, 5, 11])
+        sp["rngp"] = 1
+        sp["eft"] = rng.choice([1, 0])
+        if integ in VAR_OK and rng.chance(0.6):
+            sp["var"] = rng.choice(VAR_OK[integ])
+            sp["safe"] = 1 if integ != "whfast" else sp["safe"]
+        if integ in TESTP_OK and rng.chance(0.4):
+            sp["testp"] = rng.randint(1, 3)
+            sp["tpt"] = rng.choice([0, 0, 1])
+        if integ in ("mercurius", "trace") and rng.chance(0.5):
+            sp["enc"] = 1
+            sp["dt"] = 0.03
+            sp["N"] = 6 + rng.randint(0, 3)
+            sp["tmax"] = [0.03 * (n1 * 3 + 0.3), 0.03 * ((n1 + n2) * 3 + 0.7)]
         out.append(sp)
     return out
 
 
 def par_task(rebound, fmt, sp, tmpdir, ident):
-    """create, advance, copy, save, load, free, advance both: canonical final states of the loaded one and of the copy"""
+    """create, advance, copy, save, load, advance all three + a twin that is never serialised:
+    canonical final states of (loaded, copy, serialised original) and the fields in which the serialised original differs
+    from the never-serialised twin (must be none: serialising must not alter the trajectory)"""
     sim = make_sim(rebound, sp)
-    # the per-simulation random generator (tools.c:54-95, rand_r on r->rand_seed) feeds a test particle
-    clib = rebound.clibrebound
-    clib.reb_random_uniform.restype = ctypes.c_double
-    clib.reb_random_normal.restype = ctypes.c_double
-    u = [clib.reb_random_uniform(ctypes.byref(sim), ctypes.c_double(0.0), ctypes.c_double(1.0)) for _ in range(6)]
-    g = clib.reb_random_normal(ctypes.byref(sim), ctypes.c_double(1.0))
-    if sp["integ"] != "janus":
-        sim.add(m=0.0, x=5.0 + u[0], y=u[1] - 0.5, z=0.05 * g, vx=0.1 * (u[2] - 0.5), vy=0.35 + 0.05 * u[3], vz=0.01 * u[4])
-    sim.integrate(sp["tmax"][0])
+    integ_to(sim, sp, sp["tmax"][0])
     cp = sim.copy()
     fn = os.path.join(tmpdir, "par_%s.bin" % ident)
     sim.save_to_file(fn, delete_file=True)
     ld = rebound.Simulation(fn)
-    del sim
-    ld.integrate(sp["tmax"][1])
-    cp.integrate(sp["tmax"][1])
+    integ_to(sim, sp, sp["tmax"][1])
+    integ_to(ld, sp, sp["tmax"][1])
+    integ_to(cp, sp, sp["tmax"][1])
+    plain = make_sim(rebound, sp)
+    integ_to(plain, sp, sp["tmax"][0])
+    integ_to(plain, sp, sp["tmax"][1])
     a = fmt.canon(sim_bytes(rebound, ld), ("status",))
     b = fmt.canon(sim_bytes(rebound, cp), ("status",))
+    o = fmt.canon(sim_bytes(rebound, sim), ("status",))
+    pl = fmt.canon(sim_bytes(rebound, plain), ("status",))
     os.remove(fn)
-    del ld, cp
-    return a, b
+    del ld, cp, sim, plain
+    return a, b, o, (Fmt.diff(o, pl) if o is not None and pl is not None else ["#unparsable"])
 
 
 def parallel_run(c, rebound, fmt, reps_specs, outdir):
@@ -1017,7 +1124,7 @@ def parallel_run(c, rebound, fmt, reps_specs, outdir):
     tmpdir = tempfile.mkdtemp(prefix="par.", dir=outdir)
     k = len(reps_specs[0][1])
     reps = len(reps_specs)
-    nmis = 0
+    nmis = nneut = nvar = 0
     overl = []
     for rep, (same, specs) in enumerate(reps_specs):
         progress("parallel repetition", rep, "of", reps, "same-type" if same else "mixed")
@@ -1053,8 +1160,18 @@ def parallel_run(c, rebound, fmt, reps_specs, outdir):
         mids = [(s[0] + s[1]) / 2 for s in spans]
         overl.append(sum(sum(1 for s in spans if s[0] <= m <= s[1]) - 1 for m in mids) / float(k))
         for i, sp in enumerate(specs):
-            c.count(("par", sp["integ"], rep % 2, i % 3))
-            for which, (x, y) in enumerate(zip(seq[i], par[i])):
+            c.count(("par", sp["integ"], rep % 2, sp.get("var"), bool(sp.get("testp")), bool(sp.get("enc")), sp.get("eft")))
+            nvar += 1 if sp.get("var") else 0
+            # serialising (copy + save between two integrate() calls) must not alter the serialised simulation itself
+            for where, res_i in (("sequential", seq[i]), ("concurrent", par[i])):
+                if res_i[3]:
+                    nneut += 1
+                    c.violation("serialising-alters-trajectory:" + sp["integ"],
+                                "a simulation (%s%s) that was copied and saved between two integrate() calls ends in different bits than its "
+                                "never-serialised twin (N constant): fields %s" % (sp["integ"], ", var " + sp["var"] if sp.get("var") else "", res_i[3][:6]),
+                                dict(spec=sp, rep=rep, run=where, fields=res_i[3][:10]))
+                    break
+            for which, (x, y) in enumerate(zip(seq[i][:3], par[i][:3])):
                 if x is None or y is None:
                     raise Infra("unparsable serialisation in the parallel test")
                 dd = Fmt.diff(x, y)
@@ -1063,10 +1180,11 @@ def parallel_run(c, rebound, fmt, reps_specs, outdir):
                     c.violation("concurrent-run-differs-from-sequential:" + sp["integ"],
                                 "simulation (%s) advanced concurrently with %d others ends in different bits than run alone: fields %s"
                                 % (sp["integ"], k - 1, dd[:6]),
-                                dict(spec=sp, rep=rep, same_type=same, which=["loaded", "copy"][which], fields=dd[:10]))
+                                dict(spec=sp, rep=rep, same_type=same, which=["loaded", "copy", "serialised original"][which], fields=dd[:10]))
         if rep == 0:
             c.sample({"parallel_rep": 0, "specs": [dict(integ=s["integ"], N=s["N"], dt=s["dt"]) for s in specs[:4]]})
     return {"repetitions": reps, "simulations_per_repetition": k, "mismatches": nmis,
+            "serialised_original_differs_from_never_serialised_twin": nneut, "tasks_with_variational_particles": nvar,
             "mean_overlapping_tasks": round(sum(overl) / max(1, len(overl)), 2)}
 
 
